@@ -242,5 +242,51 @@ def r6_token_kinds_agree(chk: Check) -> None:
                       outer.loc(guard))
 
 
+def r7_traversal_order(chk: Check) -> None:
+    chk.rule("C01.R7", "PRODUCER/CONSUMER(traversal order of the schema conversion): to_json_schema looks at its children in their RAW form (readOnly/writeOnly flags of properties) and returns wrappers around not-yet-converted schemas (nullable -> anyOf), so core.transforms.transform must apply the callback to a node BEFORE descending, and descend into what the callback returned", floor=2)
+    P = chk.project
+    # the implementation is the one definition that is not an @overload stub
+    cands = [f for q, f in P.module("core/transforms.py").functions.items() if q.split("#")[0] == "transform" and "overload" not in f.decorator_names()]
+    if len(cands) != 1:
+        raise Undecided(f"core/transforms.py:transform: {len(cands)} non-overload definitions")
+    tr = cands[0]
+    cb = next((p_ for p_ in params_of(tr.node) if "callback" in p_), None)
+    sp = params_of(tr.node)[0]
+    if cb is None:
+        chk.undecided("C01.R7", tr, "transform(schema, callback, ...)", "callback parameter not recognised", tr.loc())
+        return
+    applies = [c for c in body_calls(tr) if isinstance(c.func, ast.Name) and c.func.id == cb]
+    if not applies:
+        chk.undecided("C01.R7", tr, "callback applied to dict nodes", "no call of the callback found", tr.loc())
+        return
+    g = cfg_of(tr)
+    for c in applies:
+        a0 = c.args[0] if c.args else None
+        nested = [x for x in ast.walk(a0) if isinstance(x, ast.Call) and dotted(x.func) == tr.name] if a0 is not None else []
+        construct = "callback(<the node itself>) before the recursion"
+        if nested:
+            chk.violation("C01.R7", tr, construct,
+                          "the callback receives a node whose children were ALREADY transformed (post-order): to_json_schema's `nullable` wrapper is never re-visited, and rewrite_properties sees `readOnly`+`nullable` children as anyOf wrappers - such properties stay in request bodies (and writeOnly ones in response schemas)",
+                          tr.loc(c))
+        elif is_var(a0, sp):
+            chk.ok("C01.R7", tr, construct, "", tr.loc(c))
+        else:
+            chk.undecided("C01.R7", tr, construct, f"callback argument `{unparse(a0, 60)}` not recognised", tr.loc(c))
+        # the recursion runs over the callback's RESULT and comes after it
+        st = stmt_of(c)
+        res = st.targets[0].id if isinstance(st, ast.Assign) and isinstance(st.targets[0], ast.Name) else None
+        rec = [x for x in body_calls(tr) if dotted(x.func) == tr.name]
+        after = [x for x in rec if any(n in g.reachable_from(g.stmt_nodes_containing(c)) for n in g.stmt_nodes_containing(x))]
+        over_result = any(isinstance(a, (ast.For, ast.DictComp)) and res is not None and res in names_in(a.iter if isinstance(a, ast.For) else a.generators[0].iter) for x in after for a in ancestors(x))
+        if not nested:
+            chk.decide(True if (after and over_result) else (False if not after else None), "C01.R7", tr, "recursion descends into the callback's result", "children of the converted node are not converted", tr.loc(c))
+    # the consumer really is order-dependent (that is why the rule matters)
+    tjs = P.func(f"{CONV}:to_json_schema")
+    wraps = phas("$s = {'anyOf': [$s, {'type': 'null'}]}", tjs.node)
+    chk.note("to_json_schema wraps nullable schemas before stripping (relies on being re-applied to the wrapped node)" if wraps else "to_json_schema: nullable wrapper shape not recognised")
+    rec_entry = P.func(f"{CONV}:to_json_schema_recursive")
+    chk.decide(any(last_attr(c) == "transform" and len(c.args) >= 2 and dotted(c.args[1]) == "to_json_schema" for c in body_calls(rec_entry)), "C01.R7", rec_entry, "to_json_schema_recursive = transform(schema, to_json_schema, ...)", "the recursive conversion no longer goes through transform", rec_entry.loc())
+
+
 def rules(tier: str) -> list:  # type: ignore[type-arg]
-    return [r1_generator_plumbing, r2_length_keywords, r3_property_stripping, r4_path_location, r5_filters_only_narrow, r6_token_kinds_agree]
+    return [r1_generator_plumbing, r2_length_keywords, r3_property_stripping, r4_path_location, r5_filters_only_narrow, r6_token_kinds_agree, r7_traversal_order]
